@@ -8,7 +8,7 @@ with the extracted model" on HOSTILE inputs, through EVERY harness binary:
   h-wincon    wcsx (the legacy-console stream over scripted consoles)
   h-text      git ls
   h-lossy     a16l x256l lrgb lidx lans (extreme palettes)
-  h-render    svgraw (byte for byte; the unicode_width oracle is read off the debug build's output)
+  h-render    svgraw (byte for byte; the widths are computed by the translated unicode-width, the extra fields are ignored)
   h-roff      roffo roffcolor
   h-parsecfg  pc default, c02 (the crate's default feature set)
 
@@ -339,7 +339,8 @@ class C04(Prop):
     prop_file = "Props/C04.v"
     module = "Props.C04"
     gen_deps = ["Table", "Style", "Render", "Palette", "Svg", "Roff", "Git", "Ls", "ParseCfg",
-                "ParserFn", "StripFn", "WinconFn", "LossyFn", "LsFn", "GitFn", "RoffFn", "Utf8parseFn", "ArrayVecFn"]
+                "ParserFn", "StripFn", "WinconFn", "LossyFn", "LsFn", "GitFn", "RoffFn", "Utf8parseFn", "ArrayVecFn",
+                "UnicodeWidthFn"]      # svgraw: the model computes the widths with the translated unicode-width
     harness = ("h-core", "hcore")
     shard_min = 400
     nontrivial_rule = (
@@ -356,7 +357,7 @@ class C04(Prop):
         "two-valued, corners, off-by-one), svgraw (byte-for-byte) over extreme palettes / default colours, roffo / roffcolor, rnd / rnc / rne / rnr (extreme styles x the whole flag grid), "
         "pc default; strings of ~64 KiB through c02 / sb / ss / wx / drv / strm / git / ls / roffo / svgraw / pc.  "
         "non-trivial = distinct case line whose byte-string fields hold ESC, a control, DEL or a byte >= 0x80 (for the token kinds rnd.. / lossy: every distinct line)")
-    trusted = ["cansi 2.2.1, roff 0.2.1: translated from the registry source of the pinned versions and proved equal to the models (CansiFn, RoffCrateFn: theorems under C15); html-escape: transcribed in the model, tied by these runs; unicode-width: oracle (svgraw), not compared",
+    trusted = ["cansi 2.2.1, roff 0.2.1: translated from the registry source of the pinned versions and proved equal to the models (CansiFn, RoffCrateFn: theorems under C15); html-escape: transcribed in the model, tied by these runs; unicode-width: translated from the registry source of the pinned version (UnicodeWidthFn: theorems under C14), the svgraw model computes the widths with it (the width / fills fields of the case line are ignored)",
                "third-party utf8parse automaton: translated from the registry source of the version Cargo.lock pins (tools/gen_fn_utf8parse.py; source = checksummed archive = what cargo metadata "
                "reports for the harness crates) and proved equal to Model/Utf8parse.v; trusted: cargo builds the harness from that directory, char::from_u32_unchecked = identity (precondition proved: "
                "c04_translated_utf8parse_unchecked_char_is_scalar)",
